@@ -21,8 +21,25 @@
   OBLIGATION c25_violated_by_dupIdReplaces
   OBLIGATION c25_violated_by_preAck1011
   OBLIGATION c25_violated_by_invalid1002
+
+  Frames (the step from the bytes of a frame to a client message, `ClientMessage::from_bytes`;
+  model AGV/Model/WsFrame.lean, grammar and message table AGV/Spec/WsFrame.lean, helper lemmas
+  AGV/Lemmas/WsFrame.lean).  The theorems above are stated over decoded messages; these tie the
+  decoding to them.
+
+  OBLIGATION c25_frame_doc_exact
+  OBLIGATION c25_message_table_exact
+  OBLIGATION c25_decode_total_exact
+  OBLIGATION c25_trailing_data_undecodable
+  OBLIGATION c25_undecodable_handle
+  OBLIGATION c25_undecodable_closes
+  OBLIGATION c25_lenient_reader_accepts_trailing_data
+  OBLIGATION c25_violated_by_lenientTail
+  OBLIGATION c25_violated_by_seqFrame
+  OBLIGATION c25_violated_by_seqPayload
 -/
 import AGV.Lemmas.Ws
+import AGV.Lemmas.WsFrame
 
 namespace AGV.Props.C25
 set_option linter.unusedSimpArgs false
@@ -236,5 +253,171 @@ example : run {} (State.init .new 0)
      { arrive := [.start 0] }, { str := .fin 1 }] =
     [.recv .init, .out .ack, .recv (.start 0), .out .pending, .out (.complete 0),
      .recv (.start 0), .out .pending, .out (.complete 0)] := by decide
+
+-- ------------------------------------------------------------------ frames
+
+section Frames
+open AGV.Spec.WsFrame (Str J WMsg WellFormed FrameDoc msgOf AllWs Val maxDepth)
+open AGV.Model.WsFrame (decode decodeWith decodeSpec readDoc decodeMsg pv skipWs)
+open AGV.Lemmas.WsFrame
+
+/-- The JSON reader is EXACT for the grammar, for all character lists: `readDoc false` (one
+    value, then white space only — `serde_json::from_slice`) returns the document `v` iff the
+    text is `ws value ws` for a value text of the RFC 8259 grammar denoting `v` (strings with
+    their escapes, numbers in range, nesting at most `maxDepth`). -/
+theorem c25_frame_doc_exact (cs : Str) (v : J) : readDoc false cs = some v ↔ FrameDoc cs v := by
+  unfold readDoc
+  constructor
+  · intro h
+    cases hp : pv maxDepth cs with
+    | none => simp [hp] at h
+    | some p =>
+      obtain ⟨v', r⟩ := p
+      simp only [hp, Bool.false_or] at h
+      by_cases he : (skipWs r).isEmpty = true
+      · simp [he] at h
+        subst h
+        obtain ⟨w, t, rfl, hw, hv⟩ := pv_sound maxDepth cs v' r hp
+        exact ⟨w, t, r, rfl, hw, (skipWs_nil_iff r).mp (by simpa using he), hv⟩
+      · simp [he] at h
+  · rintro ⟨w1, t, w2, rfl, hw1, hw2, hv⟩
+    have h1 := pv_complete hv w2 (safe_ws w2 hw2)
+    rw [pv_ws_append _ _ _ hw1, h1]
+    simp [(skipWs_nil_iff w2).mpr hw2]
+
+/-- serde's internally tagged enum with the derived visitors, driven by the variant table
+    EXTRACTED from `enum ClientMessage` (names, aliases, members, member types) and the members of
+    `Request`, is the message table of the protocol documents, for every JSON document: `type`
+    exactly once and a string of the table, table members at most once and of the right type,
+    other members ignored, nothing but an object is a message. -/
+theorem c25_message_table_exact (v : J) : decodeMsg {} v = msgOf v := decodeMsg_eq v
+
+/-- MAIN THEOREM OF THE DECODE STEP.  For ALL character lists: the frame decodes to `m` iff it
+    is one well-formed message object of the wire table surrounded by white space only.  (The
+    reader is the exact one because the body of `from_bytes`, extracted from the source, is
+    `serde_json::from_slice(..)`: `Gen.WsWire.fromBytesExact`.) -/
+theorem c25_decode_total_exact (cs : Str) (m : WMsg) :
+    decode {} cs = some m ↔ WellFormed cs m := by
+  have hx : decode {} cs = decodeWith false {} cs := rfl
+  rw [hx]
+  unfold decodeWith WellFormed
+  constructor
+  · intro h
+    cases hd : readDoc false cs with
+    | none => simp [hd] at h
+    | some v =>
+      simp only [hd] at h
+      exact ⟨v, (c25_frame_doc_exact cs v).mp hd, by rw [← decodeMsg_eq]; exact h⟩
+  · rintro ⟨v, hf, hm⟩
+    rw [(c25_frame_doc_exact cs v).mpr hf]
+    simp only [decodeMsg_eq, hm]
+
+example : WellFormed ([' ', '{', '"', 't', 'y', 'p', 'e', '"', ' ', ':', ' ', '"', 'p', 'i', 'n', 'g', '"', '}', '\n'] : Str) (.ping none) :=
+  (c25_decode_total_exact _ _).mp rfl
+
+/-- The gap the seeded change opened, closed in general: a well-formed message followed by
+    ANY text that is not all white space — another whole message, a truncated one, `}`, `x`,
+    NUL, a scalar — is not a decodable frame. -/
+theorem c25_trailing_data_undecodable (cs tail : Str) (m : WMsg) (h : WellFormed cs m)
+    (ht : ¬ AllWs tail) : decode {} (cs ++ tail) = none := by
+  obtain ⟨v, w2, hm, hw2, hp⟩ := msg_reads cs m h tail
+  have hx : decode {} (cs ++ tail) = decodeWith false {} (cs ++ tail) := rfl
+  rw [hx]
+  unfold decodeWith readDoc
+  rw [hp]
+  have : (skipWs (w2 ++ tail)).isEmpty = false := by
+    rw [skipWs_append_ws _ _ hw2]
+    cases hs : skipWs tail with
+    | nil => exact absurd ((skipWs_nil_iff tail).mp hs) ht
+    | cons c r => rfl
+  simp [this]
+
+example : decode {} ((['{', '"', 't', 'y', 'p', 'e', '"', ':', '"', 'p', 'i', 'n', 'g', '"', '}'] : Str) ++ (['{', '"', 't', 'y', 'p', 'e', '"', ':', '"', 'p', 'i', 'n', 'g', '"', '}'] : Str)) = none :=
+  c25_trailing_data_undecodable _ _ (.ping none) ((c25_decode_total_exact _ _).mp rfl) (by
+    intro h; exact absurd (h '{' (by decide)) (by decide))
+
+/-- the close an undecodable frame is answered with: the protocol's 4400 on
+    graphql-transport-ws, the extracted code of the source (1002) on the legacy protocol (where
+    any close is allowed) — and on both under the open finding `invalid1002` -/
+def badClose (D : Defects) (p : Proto) : Out :=
+  .close (if p == .new && !D.invalid1002 then 4400 else Gen.WsWire.codeUnparseable) .other
+
+/-- A frame for which decoding fails is the `garbage` transition of the message loop: the loop
+    returns at once with the close frame and the connection marked closed (any defect setting
+    of the session and of the decoder). -/
+theorem c25_undecodable_handle (D : Defects) (DF : AGV.Model.WsFrame.Defects) (ι : List Char → Nat)
+    (s : State) (cs : Str) (hd : decode DF cs = none) :
+    handleFrame D DF ι s cs = .ret { s with closed := true } (badClose D s.proto) := by
+  simp [handleFrame, frameMsg, hd, cmsgOf, handle, badClose]
+
+/-- … and for the whole session: when a poll that enters the message loop (connection open, no
+    callback pending, nothing queued, keep-alive timer not expired) finds an undecodable frame,
+    the session trace from there on is exactly: the frame is taken, the close frame is sent,
+    end of stream — NOTHING ELSE is emitted whatever arrives or becomes ready afterwards. -/
+theorem c25_undecodable_closes (D : Defects) (DF : AGV.Model.WsFrame.Defects) (ι : List Char → Nat)
+    (s : State) (cs : Str) (e e' : Env) (h : List Env)
+    (hd : decode DF cs = none)
+    (hopen : s.closed = false) (hni : s.initPending = false) (hnp : s.pingPending = false)
+    (hin : s.inbox = []) (htm : s.ka = 0 ∨ s.left ≠ 0)
+    (he : e.arrive = [frameMsg DF ι cs]) (htk : e.tick = false) :
+    run D s (e :: e' :: h) = [.recv .bad, .out (badClose D s.proto), .out .done] := by
+  have hb : frameMsg DF ι cs = .bad := by simp [frameMsg, hd, cmsgOf]
+  have htm' : (s.ka != 0 && s.left == 0) = false := by
+    rcases htm with h0 | h1
+    · simp [h0]
+    · simp [h1]
+  have hp : poll D s e = ({ s with inbox := [], closed := true }, [.bad], badClose D s.proto) := by
+    simp [poll, he, hb, htk, hin, hopen, hni, hnp, htm', loop, handle, badClose]
+  rw [run, hp]
+  simp only [pollEvents, List.map, List.cons_append, List.nil_append]
+  have hne : badClose D s.proto ≠ .done := by simp [badClose]
+  rw [if_neg hne, c25_closed_silent D { s with inbox := [], closed := true } e' h rfl]
+
+example : badClose {} .new = .close 4400 .other ∧ badClose {} .legacy = .close 1002 .other ∧
+    badClose Defects.pinned .new = .close 1002 .other := by decide
+
+/-- two whole messages glued into one frame -/
+def gluedFrame : Str := (['{', '"', 't', 'y', 'p', 'e', '"', ':', '"', 'c', 'o', 'n', 'n', 'e', 'c', 't', 'i', 'o', 'n', '_', 'i', 'n', 'i', 't', '"', '}', '{', '"', 't', 'y', 'p', 'e', '"', ':', '"', 's', 'u', 'b', 's', 'c', 'r', 'i', 'b', 'e', '"', ',', '"', 'i', 'd', '"', ':', '"', '1', '"', ',', '"', 'p', 'a', 'y', 'l', 'o', 'a', 'd', '"', ':', '{', '"', 'q', 'u', 'e', 'r', 'y', '"', ':', '"', '{', ' ', 'v', 'a', 'l', 'u', 'e', ' ', '}', '"', '}', '}'] : Str)
+
+example : run {} (State.init .new 0)
+    [{ arrive := [frameMsg {} (fun _ => 0) gluedFrame], fut := .ok }, { str := .item 0 1 }, {}] =
+    [.recv .bad, .out (.close 4400 .other), .out .done] :=
+  c25_undecodable_closes {} {} _ _ gluedFrame _ _ _ (by decide) rfl rfl rfl rfl (.inl rfl) rfl rfl
+
+/-- The seeded reader in general (a `Deserializer` whose `end()` is never called —
+    `lenientTail`): EVERY well-formed message followed by ANY text is accepted as that message. -/
+theorem c25_lenient_reader_accepts_trailing_data (cs tail : Str) (m : WMsg) (h : WellFormed cs m) :
+    decode { lenientTail := true } (cs ++ tail) = some m := by
+  obtain ⟨v, w2, hm, hw2, hp⟩ := msg_reads cs m h tail
+  have hx : decode { lenientTail := true } (cs ++ tail) = decodeWith true { lenientTail := true } (cs ++ tail) := rfl
+  rw [hx]
+  unfold decodeWith readDoc
+  rw [hp]
+  simp only [Bool.true_or, if_true]
+  exact (decodeMsg_eq v).trans hm
+
+/-- Witness for the seeded lenient reader, at the session level: the glued frame is a protocol
+    violation (`bad` under the exact decoder), the lenient decoder reads it as
+    `connection_init`, the session acknowledges it — and the trace `bad, connection_ack` is
+    rejected by the protocol monitor (a `Close` was due). -/
+theorem c25_violated_by_lenientTail :
+    ∃ (p : Proto) (cs : Str) (ι : List Char → Nat),
+      frameMsg {} ι cs = .bad ∧
+      run {} (State.init p 0) [{ arrive := [frameMsg { lenientTail := true } ι cs], fut := .ok }]
+        = [.recv .init, .out .ack] ∧
+      conforms p [.recv .bad, .out .ack] = false :=
+  ⟨.new, gluedFrame, fun _ => 0, by decide, by decide, by decide⟩
+
+/-- Witness (pinned tree): a JSON array is read as a message. -/
+theorem c25_violated_by_seqFrame :
+    ∃ cs : Str, (decode { seqFrame := true } cs).isSome = true ∧ (decode {} cs).isSome = false :=
+  ⟨(['[', '"', 'c', 'o', 'n', 'n', 'e', 'c', 't', 'i', 'o', 'n', '_', 'i', 'n', 'i', 't', '"', ',', 'n', 'u', 'l', 'l', ']'] : Str), by decide, by decide⟩
+
+/-- Witness (pinned tree): the payload of `subscribe` may be an array. -/
+theorem c25_violated_by_seqPayload :
+    ∃ cs : Str, (decode { seqPayload := true } cs).isSome = true ∧ (decode {} cs).isSome = false :=
+  ⟨(['{', '"', 't', 'y', 'p', 'e', '"', ':', '"', 's', 'u', 'b', 's', 'c', 'r', 'i', 'b', 'e', '"', ',', '"', 'i', 'd', '"', ':', '"', 'a', '"', ',', '"', 'p', 'a', 'y', 'l', 'o', 'a', 'd', '"', ':', '[', '"', '{', ' ', 'v', 'a', 'l', 'u', 'e', ' ', '}', '"', ']', '}'] : Str), by decide, by decide⟩
+
+end Frames
 
 end AGV.Props.C25
